@@ -13,9 +13,9 @@ def FreshOp (ident : α → Nat) (l : List α) : Op α → Prop
   | .push x => ident x ∉ l.map ident
   | .append x => ident x ∉ l.map ident
   | .pushAt x _ => ident x ∉ l.map ident
-  | .set _ x => ident x ∉ l.map ident
+  | .set i x => ∀ k, Spec.idx l.length i = some k → ident x ∉ (l.eraseIdx k).map ident   -- `x` may be the pointer it replaces
   | .concat ys => (ys.map ident).Nodup ∧ ∀ y ∈ ys, ident y ∉ l.map ident
-  | .assign ys => (ys.map ident).Nodup
+  | .assign ys _ => (ys.map ident).Nodup
   | _ => True
 
 theorem nodup_map_of_sublist (ident : α → Nat) {l1 l2 : List α} (h : l1.Sublist l2) (hn : (l2.map ident).Nodup) :
@@ -31,14 +31,12 @@ theorem nodup_insert (ident : α → Nat) (l : List α) (k : Nat) (x : α) (hk :
   exact ⟨hx, hn⟩
 
 theorem nodup_set (ident : α → Nat) (l : List α) (k : Nat) (x : α) (hk : k < l.length)
-    (hn : (l.map ident).Nodup) (hx : ident x ∉ l.map ident) : ((l.set k x).map ident).Nodup := by
+    (hn : (l.map ident).Nodup) (hx : ident x ∉ (l.eraseIdx k).map ident) : ((l.set k x).map ident).Nodup := by
   rw [List.set_eq_take_append_cons_drop, if_pos hk]
   have hp : (l.take k ++ x :: l.drop (k + 1)).Perm (x :: (l.take k ++ l.drop (k + 1))) := List.perm_middle
   rw [(hp.map ident).nodup_iff, List.map_cons, List.nodup_cons, take_drop_succ_eq_eraseIdx]
   have hs := List.eraseIdx_sublist l k
-  refine ⟨?_, nodup_map_of_sublist ident hs hn⟩
-  intro hm
-  exact hx ((hs.map ident).subset hm)
+  exact ⟨hx, nodup_map_of_sublist ident hs hn⟩
 
 /-- the abstract Tuple step keeps pointers distinct when the operation stores only fresh pointers -/
 theorem tupStep_distinct [BEq α] (ident : α → Nat) (l l' : List α) (op : Op α)
@@ -68,7 +66,7 @@ theorem tupStep_distinct [BEq α] (ident : α → Nat) (l l' : List α) (op : Op
   | set i x =>
     simp only [Spec.tupStep, Option.map_eq_some_iff] at h
     obtain ⟨k, hk, rfl⟩ := h
-    exact nodup_set ident l k x (idx_some _ _ _ hk).2.2 hn hf
+    exact nodup_set ident l k x (idx_some _ _ _ hk).2.2 hn (hf k hk)
   | rem x =>
     simp only [Spec.tupStep] at h
     split at h
@@ -89,6 +87,10 @@ theorem tupStep_distinct [BEq α] (ident : α → Nat) (l l' : List α) (op : Op
   | sort f =>
     simp [Spec.tupStep] at h; subst h
     exact ((Sort.sortList_perm f l).map ident).nodup_iff.2 hn
-  | assign ys => simp [Spec.tupStep] at h; subst h; exact hf
+  | assign ys b =>
+    simp only [Spec.tupStep] at h
+    split at h
+    · cases h; exact hf
+    · cases h
 
 end Cello.Seq
